@@ -38,7 +38,15 @@ stay distinct); reader case sensitivity is always set to the namespace's; labels
 non-empty list may be refused (TooManyTaxaError: recorded); the order of new members in a namespace
 and which of several equal-labelled members is re-used are not judged; TreeArray.migrate (not
 implemented by the library) is not exercised; rows that collapse when a matrix is *copied* into a
-namespace where their labels are equal are recorded, not judged."""
+namespace where their labels are equal are recorded, not judged.
+
+Violation keys are ``<hooked method>|<clause>[-after-raise]|<discriminator>``; for a state left behind by a
+refusal the discriminator is ``<exception class>@<innermost library function>``.  Directed scripts (DIRECTED,
+run first) hold the smallest witness of every key seen on the pinned tree: NeXML sources read into a populated
+namespace create second taxa for known labels (``TreeList.read|get|existing-taxon-duplicated|nexml``);
+CharacterMatrix.reconstruct_taxon_namespace mistakes a taxon that maps to itself for a second sequence
+(``*|spurious-refusal|row-taxon-already-member``) and, like DataSet.unify_taxon_namespaces, is not atomic when
+it refuses (``*-after-raise|TaxonNamespaceReconstructionError@CharacterMatrix.reconstruct_taxon_namespace``)."""
 import random
 
 from .. import ref, gen, bridge, core
@@ -1105,6 +1113,21 @@ DIRECTED = [
         {"op": "d_add", "d": 0, "k": 0},
         {"op": "d_add", "d": 0, "k": 0},
         {"op": "d_unify", "d": 0, "given": True, "ns": 0}]),
+    ("matrix-migrate-back-to-namespace-that-shares-its-taxa", [
+        {"op": "mk_ns", "cs": False, "labels": ["ant", "bee"]},
+        {"op": "mk_ns", "cs": False, "labels": []},
+        {"op": "mk_matrix", "ns": 0},
+        {"op": "m_from_dict", "m": 0, "labels": ["ant", "bee"], "taxon_key": False},
+        {"op": "m_migrate", "m": 0, "how": "update", "ns": 1},
+        {"op": "m_migrate", "m": 0, "how": "migrate", "ns": 0, "unify": True}]),
+    ("matrix-reconstruct-after-reassignment-refused", [
+        {"op": "mk_ns", "cs": False, "labels": ["ant", "bee"]},
+        {"op": "mk_ns", "cs": False, "labels": []},
+        {"op": "mk_matrix", "ns": 0},
+        {"op": "m_from_dict", "m": 0, "labels": ["ant", "bee"], "taxon_key": False},
+        {"op": "m_migrate", "m": 0, "how": "update", "ns": 1},
+        {"op": "m_from_dict", "m": 0, "labels": ["cat"], "taxon_key": False},
+        {"op": "m_migrate", "m": 0, "how": "reconstruct", "ns": 0, "unify": True}]),
     # rows that differ in case only, moved to a case-insensitive namespace: the refusal is legitimate
     ("matrix-migrate-with-case-collision", [
         {"op": "mk_ns", "cs": True, "labels": ["ant", "Ant", "bee"]},
@@ -1114,6 +1137,16 @@ DIRECTED = [
         {"op": "m_assign", "m": 0, "via": "setitem", "key": "index", "k": 0},
         {"op": "m_assign", "m": 0, "via": "setitem", "key": "index", "k": 1},
         {"op": "m_migrate", "m": 0, "how": "migrate", "ns": 1, "unify": True}]),
+    # the same legitimate refusal in the middle of DataSet.unify_taxon_namespaces (attached mode)
+    ("dataset-unify-refused-midway", [
+        {"op": "mk_ns", "cs": True, "labels": ["ant", "Ant", "bee"]},
+        {"op": "mk_dataset", "attach": 0},
+        {"op": "d_new_tree_list", "d": 0, "src": "list", "ts": [T(0, ["ant", "bee"])]},
+        {"op": "d_new_char_matrix", "d": 0, "src": "empty", "type": "class"},
+        {"op": "m_assign", "m": 0, "via": "setitem", "key": "index", "k": 0},
+        {"op": "m_assign", "m": 0, "via": "setitem", "key": "index", "k": 1},
+        {"op": "m_assign", "m": 0, "via": "setitem", "key": "index", "k": 2},
+        {"op": "d_unify", "d": 0, "given": False}]),
     # the three spot probes of the design: +, slice assignment, insert(..., "add")
     ("add-slice-insert-spot-probes", [
         {"op": "mk_ns", "cs": False, "labels": ["ant", "bee"]},
@@ -1153,7 +1186,7 @@ DIRECTED = [
 def cases(tier, seed):
     for name, _ in DIRECTED:
         yield {"kind": "directed", "name": name, "seed": seed}
-    n = 6000 if tier == "quick" else 80000
+    n = 12000 if tier == "quick" else 160000
     for i in range(n):
         yield {"kind": "history", "i": i, "seed": seed}
 
